@@ -90,10 +90,17 @@ class CreatedFiles:
             return
 
         self._norm_cased_dir_to_started_count.pop(parent)
-        self._norm_cased_dirs.remove(parent)
-        while self._remove_from_subfiles(parent):
-            parent = os.path.dirname(parent)
+
+        # Remove the directories that no longer contain any regular files that
+        # we started building or any other created files or directories
+        while (parent not in self._norm_cased_dir_to_started_count and
+                parent not in self._norm_cased_dir_to_subfiles):
             self._norm_cased_dirs.remove(parent)
+            self._remove_from_subfiles(parent)
+            grandparent = os.path.dirname(parent)
+            if grandparent == parent:
+                break
+            parent = grandparent
 
     def has_norm_cased_file(self, norm_cased_filename):
         """Return whether we created a regular file with the given filename.
